@@ -51,7 +51,7 @@ CHECKS = {
  "C15": dict(engine="frontend", level="exploration", design="4/C15",
    technique="mutation-based property testing: one violation operator applied at a random site of generated well-formed programs, checked on the repository's macro pipeline compiled in-process and through real rustc diagnostics",
    text="Thousands of ill-formed variants (16 violation operators x random site x four macros) of generated well-formed programs are fed to the repository's own parse/desugar/HIR/MIR/codegen pipeline compiled as a library: it must return an error, never Ok, never panic, never loop; a seeded sample and every case the front end accepts go through real rustc, where each program must get an error diagnostic of its own and no 'proc macro panicked'. Conversely every well-formed base must be accepted.",
-   note="Trusted base: the glue around the pipeline (a copy of ascent_impl), attribution of rustc diagnostics by line range. Compile-time rejections of well-formed programs that are already known (KF-2, KF-4, KF-9, KF-20) are re-checked on every run and reported as KNOWN-FINDING while they persist."),
+   note="Trusted base: the glue around the pipeline (a copy of ascent_impl), attribution of rustc diagnostics by line range. Compile-time rejections of well-formed programs that are already known (KF-2, KF-4, KF-9) are re-checked on every run and reported as KNOWN-FINDING while they persist; the program of the repaired KF-20 is kept as a control that must compile."),
  "C16": dict(engine="libprops", level="exploration", design="4/C16",
    technique="property-based testing of algebraic laws: exhaustive enumeration of all triples over small carriers of every shipped lattice type, random generation beyond",
    text="The lattice laws, their agreement with PartialOrd and the truthfulness of the 'changed' result of join_mut / meet_mut are checked on all triples of about 40 small carrier instantiations (every shipped Lattice implementation and nested compositions) and on randomly generated values of wider types.",
